@@ -157,7 +157,10 @@ def rebuild(spec):
     """the object of a stored case"""
     import hvsrpy
     if spec["kind"] == "D":
-        return hvsrpy.HvsrDiffuseField(np.array(spec["freq"]), np.array(spec["amp"]))
+        obj = hvsrpy.HvsrDiffuseField(np.array(spec["freq"]), np.array(spec["amp"]))
+        if spec.get("range") is not None:
+            obj.update_peaks_bounded(search_range_in_hz=tuple(spec["range"]))
+        return obj
     if spec["kind"] == "T":
         m = hvgen.Mirror.trad(1, spec["freq"], spec["rows"])
     else:
@@ -175,7 +178,13 @@ def gen_object(rng, kind, oid):
     if kind == "D":
         amp = hvgen.gen_curve(rng, freq)
         spec = dict(kind="D", freq=freq.tolist(), amp=amp.tolist())
-        return spec, hvsrpy.HvsrDiffuseField(freq, amp)
+        obj = hvsrpy.HvsrDiffuseField(freq, amp)
+        if rng.random() < 0.6:
+            # the user narrowed the search range before plotting / summarising: range, peak and meta must be left as they are
+            r = hvgen.gen_range(rng, freq)
+            spec["range"] = list(r)
+            obj.update_peaks_bounded(search_range_in_hz=tuple(r))
+        return spec, obj
     h = hvhist.build_history(rng, oid, kind, int(rng.integers(0, 5)), with_stats=False, freq=freq)
     spec = hvhist.history_json(h)
     obj = h["mirror"].obj
